@@ -41,6 +41,7 @@ type scItem struct {
 	Altm *scAlt `json:"altm"`
 	Mb   int    `json:"mb"`
 	RFile int   `json:"file"` // require: number of the required file
+	Mi    int   `json:"mi"`   // meth: 1-based position of the item; muse: position of the method item whose member is read
 	// set by a family before rendering (not part of TLC's record)
 	Attr  bool   `json:"-"` // local: written with a <const> attribute
 	MName string `json:"-"` // meth: the method's own name (default "mm"); when set an occurrence of role "mdef" is recorded
@@ -214,6 +215,8 @@ func scRenderMode(items []scItem, mode int) *scRender {
 			add(i, "local ", decl("n", it.N, it.ID, "local"), ", ", decl("m", it.M, it.Mid, "local"), " = ", use("u", it.U, it.B, it.Alt))
 		case "use":
 			add(i, "print(", use("u", it.U, it.B, it.Alt), ")")
+		case "muse":
+			add(i, "print(", use("t", it.T, it.Tb, it.Altt), ".", occ{Slot: "mn", Name: fmt.Sprintf("mm%d", it.Mi), Role: "muse", Kind: "meth"}, ")")
 		case "ret":
 			add(i, "return ", use("u", it.U, it.B, it.Alt))
 		case "require":
